@@ -227,3 +227,11 @@ def string_summaries(I, summ):
                     cells[8 * k + j] = ('tag', Tag('token', k), j)
         return I.V.bv('nwords', 32)
     summ['str_split'] = str_split
+    # the same summaries under whatever names / parameter orders the helpers have in this tree (found by role)
+    try:
+        for r in I.P.roles('lazy'):
+            summ[r.fn.name] = (lambda I_, st_, args, inst, r=r: nfkd_lazy(I_, st_, [args[r.args['src']], args[r.args['out']]], inst))
+        for r in I.P.roles('tokeniser'):
+            summ[r.fn.name] = (lambda I_, st_, args, inst, r=r: str_split(I_, st_, [args[r.args['buf']], args[r.args['words']]], inst))
+    except Exception:
+        pass
